@@ -441,6 +441,18 @@ func runC16(c *Ctx) {
 		newDeploy("tenant-lower", "https://apps.example.com/t/acme/", "rsa_a", "", nil),
 		newDeploy("tenant-mixed", "https://apps.example.com/t/Acme/", "rsa_a", "", nil),
 	}
+	// the private claim names are learnt from tokens the real codecs mint
+	setClock(1700000000 * nsPerS)
+	discoverLayout(func(an, av string) (s string) {
+		defer func() { recover() }()
+		pa := &assertG{SubjectKind: 2, NameID: "probe", Statements: [][]attrG{{{"", an, []string{av}}}}}
+		s, _ = mintSession(deps[0], 1700000000*nsPerS, pa)
+		return s
+	}, func(id, uri string) (s string) {
+		defer func() { recover() }()
+		s, _ = mintTracking(deps[0], 1700000000*nsPerS, samlsp.TrackedRequest{Index: "probe-index", SAMLRequestID: id, URI: uri}, true)
+		return s
+	})
 	byName := map[string]*deploy{}
 	for _, d := range deps {
 		byName[d.name] = d
@@ -489,6 +501,22 @@ func runC16(c *Ctx) {
 		if !mapped {
 			c.Count("mint/unmapped")
 			return false
+		}
+		// what the token MEANS is read through the library's own codec (at the minting instant)
+		if t != nil {
+			setClock(h.t0)
+			if h.a != nil {
+				func() {
+					defer func() { recover() }()
+					if sess, err := h.d.mw.Session.(samlsp.CookieSessionProvider).Codec.Decode(s); err == nil {
+						if cl, ok := sess.(samlsp.JWTSessionClaims); ok {
+							t.Sub, t.Attrs = cl.Subject, sortedAttrs(cl.Attributes)
+						}
+					}
+				}()
+			} else if tr, st := trackingDecode(h.d, s); st == 0 && tr != nil {
+				t.Sub, t.ID, t.URI = tr.Index, tr.SAMLRequestID, tr.URI
+			}
 		}
 		what := ""
 		kind := "session"
@@ -1104,11 +1132,11 @@ func runC16(c *Ctx) {
 		}),
 		rawMut("claims-exp-string", func(s string) string {
 			p := strings.Split(s, ".")
-			return p[0] + "." + b64([]byte(`{"exp":"never","saml-session":true}`)) + "." + p[2]
+			return p[0] + "." + b64([]byte(`{"exp":"never",`+jstr(claimSM)+`:true}`)) + "." + p[2]
 		}),
 		rawMut("claims-marker-string", func(s string) string {
 			p := strings.Split(s, ".")
-			return p[0] + "." + b64([]byte(`{"saml-session":"true","saml-authn-request":"true"}`)) + "." + p[2]
+			return p[0] + "." + b64([]byte(`{`+jstr(claimSM)+`:"true",`+jstr(claimRM)+`:"true"}`)) + "." + p[2]
 		}),
 		rawMut("bearer-prefix", func(s string) string { return "Bearer%20" + s }),
 	)
